@@ -478,13 +478,13 @@ def property_dependency_check(prop):
         return
 
     try:
-        dep_obj = prop.parent[dep]
+        dep_obj = prop.parent.properties[dep]
     except KeyError:
         msg = "Property refers to a non-existent dependency object"
         yield ValidationError(prop, msg, LABEL_WARNING, validation_id)
         return
 
-    if prop.dependency_value not in dep_obj.values[0]:
+    if prop.dependency_value not in dep_obj.values:
         msg = "Dependency-value is not equal to value of the property's dependency"
         yield ValidationError(prop, msg, LABEL_WARNING, validation_id)
 
